@@ -120,7 +120,7 @@ def run(rep, tier):
     if not inv:
         inv = [(b, i, ev) for b, i, ev in tf.all_events() if ev.get("k") == "call" and fpar and re.match(r"^(invoke_impl\{)?%s\}?\(" % re.escape(fpar), T(ev))]
     # the run on the normal path: the one in a block that returns
-    runs = [(b, i) for b, i, ev in tf.all_events() if is_run(ev) and any(x.get("k") == "return" for x in tf.blocks[b].events)]
+    runs = [(b, i) for b, i, ev in tf.all_events() if is_run(ev)]
     # (an exception edge leaves the call before it completes, so "precedes on all paths" is asked without the exception edges)
     from engine.kinds import precedes_on_all_paths as _ppa2
     def _pre(pos):
@@ -128,7 +128,9 @@ def run(rep, tier):
             return _ppa2(tf, lambda e: e is inv[0][2], pos, eh=False)
         except TypeError:
             return True
-    if inv and all(ev.get("try") is not None for _, _, ev in inv) and runs and all(_pre(p_) for p_ in runs):
+    # runs inside handlers are unreachable without exception edges (None); the run on the normal path must be preceded by the invocation
+    pres = [_pre(p_) for p_ in runs]
+    if inv and all(ev.get("try") is not None for _, _, ev in inv) and runs and any(x is True for x in pres) and not any(x is False for x in pres):
         rep.ok("C13.R2", tf, "the thread function is invoked inside the try block, before the exit callbacks")
     else:
         rep.bad("C13.R2", tf, tf.loc, "function-not-invoked", "thread_function_nullary does not invoke the thread function inside its try block before running the exit callbacks: "
